@@ -41,4 +41,34 @@ def programs():
     add("miss-label", "type A = +{l : A}\ntype B = +{l : +{k : B}}\nlet f(x : A) : B = fwd self x\n")
     add("alias-chain", "type A = B\ntype B = C\ntype C = 1\ntype D = 1 * 1\nlet f(x : A) : D = fwd self x\n")
     add("alias-chain-ok", "type A = B\ntype B = C\ntype C = 1 * 1\ntype D = 1 * 1\nlet f(x : A) : D = fwd self x\n")
+    # omega-words: X follows u^omega, P follows v^omega, one definition per position, an exit `e : 1` at every node; with
+    # v = u + u[:j] the two agree on a long prefix and get back to already-visited definitions OUT OF PHASE before they
+    # differ (rejected unless v^omega = u^omega, which gives the accepted controls)
+    import itertools
+    for plen in (1, 2, 3):
+        for u in itertools.product("ab", repeat=plen):
+            u = "".join(u)
+            for j in range(1, plen + 1):
+                v = u + u[:j]
+                lines = []
+                for i, ch in enumerate(u):
+                    lines.append("type X%d = +{k%s : X%d, e : 1}" % (i, ch, (i + 1) % len(u)))
+                for i, ch in enumerate(v):
+                    lines.append("type P%d = +{k%s : P%d, e : 1}" % (i, ch, (i + 1) % len(v)))
+                same = (u * 24)[:24] == (v * 24)[:24]
+                lines.append("let f(x : X0) : P0 = fwd self x")
+                lines.append("let g(x : P0) : X0 = fwd self x")
+                # runnable: a producer that follows v^omega for K labels and then leaves, a consumer that follows u^omega;
+                # K reaches the first position where the two words differ (there the consumer has no matching branch)
+                uw, vw = (u * 24)[:24], (v * 24)[:24]
+                K = 5 if same else next(i for i in range(24) if uw[i] != vw[i]) + 1
+                lines.append("let unit() : 1 = close self")
+                lines.append("let pk%d() : P%d = t <- new unit(); self.e<t>" % (K, K % len(v)))
+                for i in range(K - 1, -1, -1):
+                    lines.append("let pk%d() : P%d = n <- new pk%d(); self.k%s<n>" % (i, i % len(v), i + 1, vw[i]))
+                for i, ch in enumerate(u):
+                    lines.append("let c%d(x : X%d) : 1 = case x (k%s<y> => print k%s; r <- new c%d(y); wait r; close self | e<t> => wait t; print fin; close self)"
+                                 % (i, i, ch, ch, (i + 1) % len(u)))
+                lines.append("prc[main] : 1 = p <- new pk0(); r <- new c0(p); wait r; print done; close self")
+                add("omega-%s-%s-%s" % (u, v, "same" if same else "differ"), "\n".join(lines) + "\n")
     return out
